@@ -203,7 +203,14 @@ func main() {
 	seed := flag.Int64("seed", 1, "")
 	n := flag.Int("n", 600, "events per field adapter")
 	impl := flag.String("impl", "default", "label of the build / CPU configuration")
+	tower := flag.String("tower", "", "also record Fp2 / Fp6 / Fp12 operations of ecc/bls12381/ff into this file")
+	ntower := flag.Int("ntower", 5, "tower iterations (22 operations each)")
 	flag.Parse()
+	if *tower != "" {
+		to := vlib.Create(*tower)
+		towerPart(to, vlib.Rng(*seed, "c12-tower"), *ntower)
+		to.Close()
+	}
 	o := vlib.Create(*out)
 	defer o.Close()
 	var mu sync.Mutex
